@@ -1,6 +1,7 @@
 package level
 
 import (
+	"errors"
 	"io"
 	"math/bits"
 	"strconv"
@@ -339,6 +340,9 @@ func (l *linearPalette[T]) ReadFrom(r io.Reader) (n int64, err error) {
 	if n, err = size.ReadFrom(r); err != nil {
 		return
 	}
+	if size < 0 {
+		return n, errors.New("palette size less than zero")
+	}
 	if int(size) > cap(l.values) {
 		l.values = make([]T, size)
 	} else {
@@ -402,6 +406,9 @@ func (h *hashPalette[T]) ReadFrom(r io.Reader) (n int64, err error) {
 	var size, value pk.VarInt
 	if n, err = size.ReadFrom(r); err != nil {
 		return
+	}
+	if size < 0 {
+		return n, errors.New("palette size less than zero")
 	}
 	if int(size) > cap(h.values) {
 		h.values = make([]T, size)
